@@ -256,7 +256,12 @@ class RandInfoBuilder(ModelVisitor,RandIF):
         c.priority += self._soft_priority
         self._soft_priority += 1
 
-        if self._pass == 1 and len(self._soft_cond_l) > 0:
+        # Visit the expression first: the rand set of the fields that it
+        # references must be active before the guarded form is added
+        # (the guards themselves may reference no field at all)
+        super().visit_constraint_soft(c)
+
+        if self._pass == 1 and len(self._soft_cond_l) > 0 and self._active_randset is not None:
             # AND all soft conditions together
             and_cond = self._soft_cond_l[0]
             for soft_cond in self._soft_cond_l[1:]:
@@ -269,8 +274,6 @@ class RandInfoBuilder(ModelVisitor,RandIF):
             soft_implies.priority = c.priority
             self._active_randset.add_constraint(soft_implies)
 
-        super().visit_constraint_soft(c)
-        
         if RandInfoBuilder.EN_DEBUG:
             print("<-- RandInfoBuilder::visit_constraint_soft")
 
